@@ -321,7 +321,9 @@ class FortranAST:
     def check_file(self, obj_tree):
         errors = []
         tmp_list = self.scope_list[:]  # shallow copy
-        if self.none_scope is not None:
+        # An included file's none_scope is redirected to the including scope,
+        # whose diagnostics belong to the including file
+        if (self.none_scope is not None) and (self.none_scope.file_ast is self):
             tmp_list += [self.none_scope]
         for error in self.end_errors:
             if error[0] >= 0:
